@@ -856,7 +856,7 @@ func rebaseAddStep(dc *dagConfig, rBaseOld, rBaseNew ref.Ref) error {
 			})
 		}
 		dm.layers = append(dagAdd, dm.layers...)
-		layers = append(layersNew, layers...)
+		layers = append(slices.Clone(layersNew), layers...)
 		err = mi.SetLayers(layers)
 		if err != nil {
 			return err
